@@ -10,18 +10,30 @@
 //!     rehash = 1: the hash is (re)computed / stored afterwards (`update_hash_from_stream`, or the
 //!              caller stores a DataHash with the digest when the offsets are synthetic)
 //!     da     = dynamic assertions of the signer: reserve_size : length of the content returned
-//!   reply: `ok slack=<n>` (same length as the placeholder, n trailing zero bytes after the JUMBF)
-//!          | `err toolarge` | anything else = a different length / another error
+//!     da     entries may carry a third field `:c|:j|:b` — the kind of the content (CBOR, JSON, Binary)
+//!     lost=1 : the Builder is rebuilt from its serialised JSON between `placeholder` and
+//!              `set_data_hash_exclusions` (the recorded placeholder length is not serialised)
+//!   C15 oflow guarded=<0|1> s0=<n> s1=<n> da=…   — caller-supplied BoxHash binding; s0/s1 = CBOR size of
+//!              the BoxHash assertion when `placeholder` / `sign_embeddable` ran
+//!   C15 legacy alg=<n> hash=<n> pre=<-|dh> excl=<-|s:l,…>  — data_hashed_placeholder + sign_data_hashed_embeddable
+//!   reply: `ok slack=<n>` (same JUMBF length as the placeholder, n trailing zero bytes after the JUMBF)
+//!          | `ok shorter=<d>` | `ok longer=<d>` (JUMBF bytes) | `err toolarge` | `err toosmall` | anything else
 //!   fmt/real/reserve/title are not read by the model (they must not matter).
 
 use std::io::Cursor;
 
+use std::sync::Arc;
+
 use c2pa::{
-    assertions::DataHash,
+    assertions::{BoxHash, BoxMap, DataHash},
     dynamic_assertion::{DynamicAssertion, DynamicAssertionContent, PartialClaim},
-    verif_hooks::{c14::data_hash_assertion_data, c15::builder_data_hash},
+    verif_hooks::{
+        c14::data_hash_assertion_data,
+        c15::{box_hash_assertion_data, builder_box_hash, builder_data_hash},
+    },
     Builder, Context, EphemeralSigner, HashRange, Reader, Signer, SigningAlg, ValidationState,
 };
+use serde_bytes::ByteBuf;
 use vh::common::{guarded, main_with, Rng, Run};
 
 fn main() {
@@ -32,10 +44,37 @@ fn main() {
 // signer with a chosen reserve and dynamic assertions of chosen sizes
 // ---------------------------------------------------------------------------------------------
 
+#[derive(Clone, Copy, PartialEq, Debug)]
+enum Kind {
+    Cbor,
+    Json,
+    Binary,
+}
+
+impl Kind {
+    fn tag(self) -> &'static str {
+        match self {
+            Kind::Cbor => "c",
+            Kind::Json => "j",
+            Kind::Binary => "b",
+        }
+    }
+}
+
 struct Da {
     label: String,
     reserve: usize,
     content: usize,
+    kind: Kind,
+}
+
+/// Valid JSON text of exactly `c >= 1` bytes.
+fn json_of_size(c: usize) -> String {
+    if c == 1 {
+        "7".to_string()
+    } else {
+        format!("\"{}\"", "j".repeat(c - 2))
+    }
 }
 
 fn hdr(n: usize) -> usize {
@@ -88,14 +127,18 @@ impl DynamicAssertion for Da {
     }
 
     fn content(&self, _label: &str, _size: Option<usize>, _claim: &PartialClaim) -> c2pa::Result<DynamicAssertionContent> {
-        Ok(DynamicAssertionContent::Cbor(cbor_of_size(self.content)))
+        Ok(match self.kind {
+            Kind::Cbor => DynamicAssertionContent::Cbor(cbor_of_size(self.content)),
+            Kind::Json => DynamicAssertionContent::Json(json_of_size(self.content)),
+            Kind::Binary => DynamicAssertionContent::Binary("application/octet-stream".into(), vec![0xb1; self.content]),
+        })
     }
 }
 
 struct OwnSigner {
     inner: EphemeralSigner,
     reserve: usize,
-    das: Vec<(usize, usize)>,
+    das: Vec<(usize, usize, Kind)>,
 }
 
 impl Signer for OwnSigner {
@@ -119,8 +162,8 @@ impl Signer for OwnSigner {
         self.das
             .iter()
             .enumerate()
-            .map(|(i, (r, c))| {
-                Box::new(Da { label: format!("org.verif.da{i}"), reserve: *r, content: *c }) as Box<dyn DynamicAssertion>
+            .map(|(i, (r, c, k))| {
+                Box::new(Da { label: format!("org.verif.da{i}"), reserve: *r, content: *c, kind: *k }) as Box<dyn DynamicAssertion>
             })
             .collect()
     }
@@ -132,6 +175,9 @@ impl Signer for OwnSigner {
 
 #[derive(Clone)]
 struct PreDh {
+    /// the caller cleared `name` / `alg` (public `Option` fields) after `DataHash::new`
+    no_name: bool,
+    no_alg: bool,
     name_len: usize,
     hash_len: usize,
     pad: usize,
@@ -149,9 +195,15 @@ struct Case {
     /// manifest's own range
     excl: Option<Vec<(u64, u64)>>,
     rehash: bool,
-    das: Vec<(usize, usize)>,
+    das: Vec<(usize, usize, Kind)>,
     reserve_extra: usize,
     title_len: usize,
+    /// Some(n): the caller adds a BoxHash with n dummy boxes before `placeholder` (real assets only)
+    boxhash: Option<usize>,
+    /// the Builder is serialised to JSON and rebuilt after `placeholder`
+    lost: bool,
+    /// data_hashed_placeholder + sign_data_hashed_embeddable instead of placeholder + sign_embeddable
+    legacy: bool,
 }
 
 fn hash_len(alg: &str) -> usize {
@@ -188,13 +240,35 @@ fn definition(alg: &str, title_len: usize) -> String {
 /// Undo `compose_manifest`: the (possibly zero padded) JUMBF bytes inside the composed form.
 fn decompose(fmt: &str, composed: &[u8]) -> Option<Vec<u8>> {
     match fmt {
-        "c2pa" => Some(composed.to_vec()),
+        // compose_manifest is the identity for these handlers
+        "c2pa" | "image/tiff" | "image/jxl" | "application/pdf" => Some(composed.to_vec()),
         "image/png" => {
             let n = u32::from_be_bytes(composed.get(0..4)?.try_into().ok()?) as usize;
             if composed.get(4..8)? != b"caBX" || composed.len() != n + 12 {
                 return None;
             }
             Some(composed.get(8..8 + n)?.to_vec())
+        }
+        "image/gif" => {
+            // 21 ff 0b "C2PA_GIF" 01 00 00, data sub-blocks, 00
+            if composed.get(0..14)? != [0x21, 0xff, 0x0b, b'C', b'2', b'P', b'A', b'_', b'G', b'I', b'F', 1, 0, 0] {
+                return None;
+            }
+            let mut out = vec![];
+            let mut i = 14;
+            loop {
+                let n = *composed.get(i)? as usize;
+                i += 1;
+                if n == 0 {
+                    break;
+                }
+                out.extend_from_slice(composed.get(i..i + n)?);
+                i += n;
+            }
+            if i != composed.len() {
+                return None;
+            }
+            Some(out)
         }
         "image/jpeg" => {
             let mut out = vec![];
@@ -222,17 +296,46 @@ fn decompose(fmt: &str, composed: &[u8]) -> Option<Vec<u8>> {
     }
 }
 
-fn splice_offset(fmt: &str) -> usize {
-    match fmt {
-        "image/jpeg" => 2,  // after SOI
-        "image/png" => 33,  // after signature + IHDR
-        _ => 0,
-    }
-}
-
 struct Assets {
     jpeg: Vec<u8>,
     png: Vec<u8>,
+    gif: Vec<u8>,
+    jxl: Vec<u8>,
+}
+
+impl Assets {
+    fn get(&self, fmt: &str) -> &Vec<u8> {
+        match fmt {
+            "image/jpeg" => &self.jpeg,
+            "image/gif" => &self.gif,
+            "image/jxl" => &self.jxl,
+            _ => &self.png,
+        }
+    }
+
+    /// where the composed manifest is spliced in
+    fn splice_offset(&self, fmt: &str) -> usize {
+        match fmt {
+            "image/jpeg" => 2, // after SOI
+            "image/png" => 33, // after signature + IHDR
+            "image/jxl" => {
+                // after the signature box and the ftyp box
+                let ftyp = u32::from_be_bytes(self.jxl[12..16].try_into().unwrap()) as usize;
+                12 + ftyp
+            }
+            "image/gif" => {
+                // after header, logical screen descriptor and global colour table
+                let packed = self.gif[10];
+                13 + if packed & 0x80 != 0 { 3 * (1usize << ((packed & 7) + 1)) } else { 0 }
+            }
+            _ => 0,
+        }
+    }
+}
+
+thread_local! {
+    /// set by `judge`: the box list of the patched asset differs from the one with the placeholder
+    static STRUCTURE_CHANGED: std::cell::Cell<bool> = const { std::cell::Cell::new(false) };
 }
 
 enum Outcome {
@@ -240,6 +343,7 @@ enum Outcome {
     Longer(usize),
     Shorter(usize),
     TooLarge,
+    TooSmall,
     OtherErr(String),
 }
 
@@ -247,27 +351,158 @@ struct FlowResult {
     outcome: Outcome,
     /// Some(state string) when the patched asset was read back
     readback: Option<Result<ValidationState, String>>,
-    ph_dh_cbor: usize,
-    new_dh_cbor: usize,
+    /// CBOR size of the hard-binding assertion at placeholder() / at signing
+    ph_bind_cbor: usize,
+    new_bind_cbor: usize,
     ph_len: usize,
+    /// the real update_hash_from_stream ran (not the caller-digest replacement)
+    real_rehash: bool,
 }
 
 fn err_class(e: &c2pa::Error) -> Outcome {
     match e {
         c2pa::Error::BadParam(m) if m.contains("larger than the placeholder") => Outcome::TooLarge,
+        c2pa::Error::JumbfCreationError => Outcome::TooSmall,
         other => Outcome::OtherErr(format!("{other:?}").chars().take(160).collect()),
     }
 }
 
+fn dummy_box_hash(n: usize) -> BoxHash {
+    BoxHash {
+        boxes: (0..n)
+            .map(|i| BoxMap {
+                names: vec![format!("DUMMY{i:03}")],
+                alg: Some("sha256".into()),
+                hash: ByteBuf::from(vec![0u8; 32]),
+                excluded: None,
+                pad: ByteBuf::from(vec![]),
+                range_start: 0,
+                range_len: 0,
+            })
+            .collect(),
+    }
+}
+
+fn bind_cbor(builder: &Builder, boxhash: bool) -> Result<usize, String> {
+    if boxhash {
+        let bh = builder_box_hash(builder).map_err(|e| format!("box hash {e}"))?;
+        Ok(box_hash_assertion_data(&bh).map_err(|e| format!("{e}"))?.len())
+    } else {
+        let dh = builder_data_hash(builder).map_err(|e| format!("data hash {e}"))?;
+        Ok(data_hash_assertion_data(&dh).map_err(|e| format!("{e}"))?.len())
+    }
+}
+
+/// Compare the signed bytes with the placeholder bytes (JUMBF level), check the zero padding,
+/// patch the asset in place and read it back.
+fn judge(
+    fmt: &str,
+    ph: &[u8],
+    signed: c2pa::Result<Vec<u8>>,
+    asset: Option<&mut Vec<u8>>,
+    off: usize,
+) -> Result<(Outcome, Option<Result<ValidationState, String>>), String> {
+    let bytes = match signed {
+        Err(e) => return Ok((err_class(&e), None)),
+        Ok(b) => b,
+    };
+    let ph_inner = decompose(fmt, ph).ok_or("decompose placeholder")?;
+    let inner = decompose(fmt, &bytes).ok_or("decompose signed")?;
+    // composed lengths must order the same way as the JUMBF lengths
+    if (bytes.len() > ph.len()) != (inner.len() > ph_inner.len()) || (bytes.len() < ph.len()) != (inner.len() < ph_inner.len()) {
+        return Err(format!("composed {} vs {} but JUMBF {} vs {}", bytes.len(), ph.len(), inner.len(), ph_inner.len()));
+    }
+    if inner.len() > ph_inner.len() {
+        return Ok((Outcome::Longer(inner.len() - ph_inner.len()), None));
+    }
+    if inner.len() < ph_inner.len() {
+        return Ok((Outcome::Shorter(ph_inner.len() - inner.len()), None));
+    }
+    let lbox = u32::from_be_bytes(inner.get(0..4).ok_or("lbox")?.try_into().unwrap()) as usize;
+    if lbox > inner.len() || inner[lbox..].iter().any(|b| *b != 0) {
+        return Err(format!("padding not zero / LBox {lbox} of {}", inner.len()));
+    }
+    let mut readback = None;
+    if let Some(a) = asset {
+        let names = |a: &Vec<u8>| -> Option<Vec<String>> {
+            c2pa::verif_hooks::c07::box_map(fmt, &mut Cursor::new(a.clone()))?.ok().map(|m| m.into_iter().map(|b| b.names.join("+")).collect())
+        };
+        let before = names(a);
+        a[off..off + bytes.len()].copy_from_slice(&bytes);
+        // observation (not part of the statement): does the container still list the same boxes?
+        STRUCTURE_CHANGED.with(|c| c.set(before.is_some() && names(a) != before));
+        let st = Reader::from_context(Context::new())
+            .with_stream(fmt, Cursor::new(a.clone()))
+            .map(|r| r.validation_state())
+            .map_err(|e| format!("{e:?}").chars().take(160).collect::<String>());
+        readback = Some(st);
+    }
+    Ok((Outcome::Ok { slack: inner.len() - lbox }, readback))
+}
+
+fn run_legacy(case: &Case, assets: &Assets) -> Result<FlowResult, String> {
+    let inner = EphemeralSigner::new("c15.test").map_err(|e| format!("signer {e}"))?;
+    let reserve = inner.reserve_size() + case.reserve_extra;
+    let signer = OwnSigner { inner, reserve, das: vec![] };
+    let ctx = Context::new()
+        .with_settings(r#"{"builder": {"thumbnail": {"enabled": false}}}"#)
+        .map_err(|e| format!("settings {e}"))?;
+    let mut builder = Builder::from_context(ctx)
+        .with_definition(definition(case.alg, case.title_len))
+        .map_err(|e| format!("definition {e}"))?;
+    if let Some(pre) = &case.pre {
+        // update_data_hash looks the assertion up by the fixed name "jumbf manifest"
+        let mut dh = DataHash::new("jumbf manifest", case.alg);
+        for (s, l) in &pre.exclusions {
+            dh.add_exclusion(HashRange::new(*s, *l));
+        }
+        dh.set_hash(vec![0x11; pre.hash_len]);
+        dh.add_padding(vec![0; pre.pad]);
+        builder.add_assertion(DataHash::LABEL, &dh).map_err(|e| format!("add pre {e}"))?;
+    }
+    let ph = builder.data_hashed_placeholder(reserve, case.fmt).map_err(|e| format!("legacy placeholder {e}"))?;
+    let ph_bind_cbor = bind_cbor(&builder, false)?;
+    let off = assets.splice_offset(case.fmt);
+    let mut excl = case.excl.clone().unwrap_or_default();
+    let mut asset = None;
+    let mut dh = DataHash::new("caller", case.alg);
+    if case.real {
+        let src = assets.get(case.fmt);
+        let mut a = Vec::with_capacity(src.len() + ph.len());
+        a.extend_from_slice(&src[..off]);
+        a.extend_from_slice(&ph);
+        a.extend_from_slice(&src[off..]);
+        excl = vec![(off as u64, ph.len() as u64)];
+        dh.add_exclusion(HashRange::new(off as u64, ph.len() as u64));
+        dh.gen_hash_from_stream(&mut Cursor::new(a.clone())).map_err(|e| format!("hash {e}"))?;
+        asset = Some(a);
+    } else {
+        for (s, l) in &excl {
+            dh.add_exclusion(HashRange::new(*s, *l));
+        }
+        dh.set_hash(vec![0x22; hash_len(case.alg)]);
+    }
+    let _ = excl;
+    let new_bind_cbor = data_hash_assertion_data(&dh).map_err(|e| format!("{e}"))?.len();
+    let signed = builder.sign_data_hashed_embeddable(&signer, &dh, case.fmt);
+    let (outcome, readback) = judge(case.fmt, &ph, signed, asset.as_mut(), off)?;
+    Ok(FlowResult { outcome, readback, ph_bind_cbor, new_bind_cbor, ph_len: ph.len(), real_rehash: false })
+}
+
 fn run_flow(case: &Case, assets: &Assets) -> Result<FlowResult, String> {
+    if case.legacy {
+        return run_legacy(case, assets);
+    }
     let inner = EphemeralSigner::new("c15.test").map_err(|e| format!("signer {e}"))?;
     let reserve = inner.reserve_size() + case.reserve_extra;
     let signer = OwnSigner { inner, reserve, das: case.das.clone() };
-    let ctx = Context::new()
-        .with_settings(r#"{"builder": {"thumbnail": {"enabled": false}}}"#)
-        .map_err(|e| format!("settings {e}"))?
-        .with_signer(signer);
-    let mut builder = Builder::from_context(ctx)
+    let ctx = Arc::new(
+        Context::new()
+            .with_settings(r#"{"builder": {"thumbnail": {"enabled": false}}}"#)
+            .map_err(|e| format!("settings {e}"))?
+            .with_signer(signer),
+    );
+    let mut builder = Builder::from_shared_context(&ctx)
         .with_definition(definition(case.alg, case.title_len))
         .map_err(|e| format!("definition {e}"))?;
     if let Some(pre) = &case.pre {
@@ -277,18 +512,32 @@ fn run_flow(case: &Case, assets: &Assets) -> Result<FlowResult, String> {
         }
         dh.set_hash(vec![0x11; pre.hash_len]);
         dh.add_padding(vec![0; pre.pad]);
+        if pre.no_name {
+            dh.name = None;
+        }
+        if pre.no_alg {
+            dh.alg = None;
+        }
         builder.add_assertion(DataHash::LABEL, &dh).map_err(|e| format!("add pre {e}"))?;
     }
+    if let Some(n) = case.boxhash {
+        builder.add_assertion(BoxHash::LABEL, &dummy_box_hash(n)).map_err(|e| format!("add box hash {e}"))?;
+    }
     let ph = builder.placeholder(case.fmt).map_err(|e| format!("placeholder {e}"))?;
-    let ph_dh = builder_data_hash(&builder).map_err(|e| format!("ph dh {e}"))?;
-    let ph_dh_cbor = data_hash_assertion_data(&ph_dh).map_err(|e| format!("{e}"))?.len();
+    let ph_bind_cbor = bind_cbor(&builder, case.boxhash.is_some())?;
+
+    if case.lost {
+        // the Builder's own serialisation, read back the way a definition is loaded
+        let json = serde_json::to_string(&builder).map_err(|e| format!("to json {e}"))?;
+        builder = Builder::from_shared_context(&ctx).with_definition(json.as_str()).map_err(|e| format!("from json {e}"))?;
+    }
 
     // embed
     let mut asset: Option<Vec<u8>> = None;
-    let off = splice_offset(case.fmt);
+    let off = assets.splice_offset(case.fmt);
     let mut excl = case.excl.clone();
     if case.real {
-        let src = if case.fmt == "image/jpeg" { &assets.jpeg } else { &assets.png };
+        let src = assets.get(case.fmt);
         let mut a = Vec::with_capacity(src.len() + ph.len());
         a.extend_from_slice(&src[..off]);
         a.extend_from_slice(&ph);
@@ -313,59 +562,55 @@ fn run_flow(case: &Case, assets: &Assets) -> Result<FlowResult, String> {
             .set_data_hash_exclusions(list.iter().map(|(s, l)| HashRange::new(*s, *l)).collect())
             .map_err(|e| format!("set excl {e}"))?;
     }
+    let mut real_rehash = false;
     if case.rehash {
         if let Some(a) = &asset {
             builder
                 .update_hash_from_stream(case.fmt, &mut Cursor::new(a.clone()))
                 .map_err(|e| format!("update hash {e}"))?;
+            real_rehash = true;
         } else {
-            // caller-supplied digest (synthetic offsets): same replacement update_hash_from_stream does
+            // synthetic offsets: the real update_hash_from_stream on a stream of zeros when every
+            // range lies inside one of reasonable size …
             let cur = builder_data_hash(&builder).map_err(|e| format!("cur dh {e}"))?;
-            let mut dh = DataHash::new(cur.name.as_deref().unwrap_or("jumbf manifest"), cur.alg.as_deref().unwrap_or(case.alg));
-            for e in cur.exclusions.clone().unwrap_or_default() {
-                dh.add_exclusion(e);
+            let ranges = cur.exclusions.clone().unwrap_or_default();
+            let need = ranges.iter().map(|r| r.start().saturating_add(r.length())).max().unwrap_or(0);
+            if need < (1 << 20) {
+                let mut z = Cursor::new(vec![0u8; need as usize + 16]);
+                if builder.update_hash_from_stream(case.fmt, &mut z).is_ok() {
+                    real_rehash = true;
+                }
             }
-            dh.set_hash(vec![0x22; hash_len(case.alg)]);
-            builder.definition.assertions.retain(|a| !a.label.starts_with(DataHash::LABEL));
-            builder.add_assertion(DataHash::LABEL, &dh).map_err(|e| format!("add dh {e}"))?;
+            if !real_rehash {
+                // … otherwise a caller-supplied digest: the replacement update_hash_from_stream does
+                let mut dh = DataHash::new(cur.name.as_deref().unwrap_or("jumbf manifest"), cur.alg.as_deref().unwrap_or(case.alg));
+                for e in ranges {
+                    dh.add_exclusion(e);
+                }
+                dh.set_hash(vec![0x22; hash_len(case.alg)]);
+                builder.definition.assertions.retain(|a| !a.label.starts_with(DataHash::LABEL));
+                builder.add_assertion(DataHash::LABEL, &dh).map_err(|e| format!("add dh {e}"))?;
+            }
         }
     }
-    let new_dh = builder_data_hash(&builder).map_err(|e| format!("new dh {e}"))?;
-    let new_dh_cbor = data_hash_assertion_data(&new_dh).map_err(|e| format!("{e}"))?.len();
+    let new_bind_cbor = bind_cbor(&builder, case.boxhash.is_some())?;
 
     let signed = builder.sign_embeddable(case.fmt);
-    let mut readback = None;
-    let outcome = match signed {
-        Err(e) => err_class(&e),
-        Ok(bytes) => {
-            if bytes.len() > ph.len() {
-                Outcome::Longer(bytes.len() - ph.len())
-            } else if bytes.len() < ph.len() {
-                Outcome::Shorter(ph.len() - bytes.len())
-            } else {
-                let inner = decompose(case.fmt, &bytes).ok_or("decompose")?;
-                let lbox = u32::from_be_bytes(inner.get(0..4).ok_or("lbox")?.try_into().unwrap()) as usize;
-                if lbox > inner.len() || inner[lbox..].iter().any(|b| *b != 0) {
-                    return Err(format!("padding not zero / LBox {lbox} of {}", inner.len()));
-                }
-                if let Some(a) = asset.as_mut() {
-                    a[off..off + bytes.len()].copy_from_slice(&bytes);
-                    let st = Reader::from_context(Context::new())
-                        .with_stream(case.fmt, Cursor::new(a.clone()))
-                        .map(|r| r.validation_state())
-                        .map_err(|e| format!("{e:?}").chars().take(160).collect::<String>());
-                    readback = Some(st);
-                }
-                Outcome::Ok { slack: inner.len() - lbox }
-            }
-        }
-    };
-    Ok(FlowResult { outcome, readback, ph_dh_cbor, new_dh_cbor, ph_len: ph.len() })
+    let (outcome, readback) = judge(case.fmt, &ph, signed, asset.as_mut(), off)?;
+    Ok(FlowResult { outcome, readback, ph_bind_cbor, new_bind_cbor, ph_len: ph.len(), real_rehash })
 }
 
 fn pre_str(p: &Option<PreDh>) -> String {
     match p {
         None => "-".to_string(),
+        Some(p) if p.no_name || p.no_alg => format!(
+            "{};{};{};{};{}",
+            if p.no_name { "-".to_string() } else { p.name_len.to_string() },
+            if p.no_alg { "-" } else { "d" },
+            p.hash_len,
+            p.pad,
+            excl_str(&p.exclusions)
+        ),
         Some(p) => format!("{};{};{};{}", p.name_len, p.hash_len, p.pad, excl_str(&p.exclusions)),
     }
 }
@@ -378,35 +623,39 @@ fn do_case(run: &mut Run, case: &Case, assets: &Assets, tag: &str) {
     let da = if case.das.is_empty() {
         "-".to_string()
     } else {
-        case.das.iter().map(|(r, c)| format!("{r}:{c}")).collect::<Vec<_>>().join(",")
+        case.das.iter().map(|(r, c, k)| format!("{r}:{c}:{}", k.tag())).collect::<Vec<_>>().join(",")
     };
     run.count(&format!("flow:{tag}"));
     run.count(&format!("fmt:{}", case.fmt));
     let res = guarded(std::panic::AssertUnwindSafe(|| run_flow(case, assets)));
-    // for `real` cases the exclusion list is rewritten against the asset; report the effective one
-    let mk_req = |excl: &str| {
-        format!(
-            "C15 flow alg={} hash={} pre={} excl={} rehash={} da={} fmt={} real={} reserve=+{} title={}",
-            case.alg.len(),
-            hash_len(case.alg),
-            pre_str(&case.pre),
-            excl,
-            case.rehash as u8,
-            da,
-            case.fmt,
-            case.real as u8,
-            case.reserve_extra,
-            case.title_len
-        )
+    let trailer = format!("fmt={} real={} reserve=+{} title={}", case.fmt, case.real as u8, case.reserve_extra, case.title_len);
+    // `excl`: the effective exclusion list; `r`: the measured binding sizes (BoxHash flows)
+    let mk_req = |excl: &str, r: Option<&FlowResult>| {
+        if case.legacy {
+            format!("C15 legacy alg={} hash={} pre={} excl={} {trailer}", case.alg.len(), hash_len(case.alg), pre_str(&case.pre), excl)
+        } else if case.boxhash.is_some() {
+            let (s0, s1) = r.map(|r| (r.ph_bind_cbor, r.new_bind_cbor)).unwrap_or((0, 0));
+            format!("C15 oflow guarded=1 s0={s0} s1={s1} da={da} dummy={} {trailer}", case.boxhash.unwrap_or(0))
+        } else {
+            format!(
+                "C15 flow alg={} hash={} pre={} excl={} rehash={} da={} lost={} {trailer}",
+                case.alg.len(),
+                hash_len(case.alg),
+                pre_str(&case.pre),
+                excl,
+                case.rehash as u8,
+                da,
+                case.lost as u8,
+            )
+        }
     };
-    // effective exclusions for real cases need the placeholder length: recompute after the run
     match res {
         Err(p) => {
-            let idx = run.case(mk_req(&excl), "panic".into());
+            let idx = run.case(mk_req(&excl, None), "panic".into());
             run.fail(idx, "panic", format!("embeddable flow panicked: {p}"));
         }
         Ok(Err(e)) => {
-            let idx = run.case(mk_req(&excl), format!("harness-error {}", e.replace(' ', "_")));
+            let idx = run.case(mk_req(&excl, None), format!("harness-error {}", e.replace(' ', "_")));
             run.fail(idx, "flow-setup-error", e);
         }
         Ok(Ok(r)) => {
@@ -415,15 +664,15 @@ fn do_case(run: &mut Run, case: &Case, assets: &Assets, tag: &str) {
                     None => "none".to_string(),
                     Some(v) => {
                         // same rewriting as run_flow (deterministic in placeholder length and asset)
-                        let src_len = if case.fmt == "image/jpeg" { assets.jpeg.len() } else { assets.png.len() };
-                        let off = splice_offset(case.fmt) as u64;
+                        let src_len = assets.get(case.fmt).len();
+                        let off = assets.splice_offset(case.fmt) as u64;
                         let end = (src_len + r.ph_len) as u64;
                         let base = off + r.ph_len as u64;
                         let eff: Vec<(u64, u64)> = v
                             .iter()
                             .enumerate()
                             .map(|(i, (s, l))| {
-                                if i == 0 {
+                                if i == 0 || case.legacy {
                                     (off, r.ph_len as u64)
                                 } else {
                                     let st = (base + s).min(end - 1);
@@ -442,32 +691,84 @@ fn do_case(run: &mut Run, case: &Case, assets: &Assets, tag: &str) {
                 Outcome::Longer(d) => format!("ok longer={d}"),
                 Outcome::Shorter(d) => format!("ok shorter={d}"),
                 Outcome::TooLarge => "err toolarge".to_string(),
+                Outcome::TooSmall => "err toosmall".to_string(),
                 Outcome::OtherErr(e) => format!("err other:{}", e.replace(' ', "_")),
             };
-            let idx = run.case(mk_req(&eff), reply);
-            run.nontrivial(format!("{}|{}|{}|{}|{}", case.fmt, pre_str(&case.pre), eff, da, case.rehash));
-            if r.new_dh_cbor > r.ph_dh_cbor {
-                run.count("dh:larger-than-placeholder");
-            } else if r.new_dh_cbor == r.ph_dh_cbor {
-                run.count("dh:equal");
+            let idx = run.case(mk_req(&eff, Some(&r)), reply);
+            run.nontrivial(format!(
+                "{}|{}|{}|{}|{}|{:?}|{}|{}",
+                case.fmt,
+                pre_str(&case.pre),
+                eff,
+                da,
+                case.rehash,
+                case.boxhash,
+                case.lost,
+                case.legacy
+            ));
+            if r.real_rehash {
+                run.count("rehash:real-update_hash_from_stream");
+            } else if case.rehash && !case.legacy {
+                run.count("rehash:caller-digest");
+            }
+            if r.new_bind_cbor > r.ph_bind_cbor {
+                run.count("binding:larger-than-placeholder");
+            } else if r.new_bind_cbor == r.ph_bind_cbor {
+                run.count("binding:equal");
             } else {
-                run.count("dh:smaller");
+                run.count("binding:smaller");
+            }
+            if case.lost {
+                // A Builder rebuilt from its JSON never ran placeholder(): sign_embeddable documents
+                // "Mode 2" (size determined by the content). Not judged by the size contract; the model
+                // must predict the exact difference (compared by the differential run).
+                match &r.outcome {
+                    Outcome::Longer(_) => run.count("mode2:longer-than-earlier-placeholder"),
+                    Outcome::Shorter(_) => run.count("mode2:shorter-than-earlier-placeholder"),
+                    Outcome::Ok { slack } if *slack == 0 => run.count("mode2:same-length"),
+                    Outcome::Ok { .. } => run.fail(idx, "mode2-padded", "a Builder without recorded placeholder length zero padded its result".into()),
+                    Outcome::TooLarge | Outcome::TooSmall => run.fail(idx, "mode2-size-error", "size error without a recorded placeholder length".into()),
+                    Outcome::OtherErr(e) => run.fail(idx, "embeddable-unexpected-error", e.clone()),
+                }
+                return;
             }
             // the property, on the implementation: exact length or an error — never longer/shorter
+            let suffix = if case.legacy {
+                "-legacy"
+            } else if case.boxhash.is_some() {
+                "-boxhash"
+            } else {
+                ""
+            };
             match &r.outcome {
-                Outcome::Longer(d) => run.fail(idx, "embeddable-longer", format!(
-                    "sign_embeddable returned {d} bytes more than placeholder ({} bytes); DataHash CBOR {} vs placeholder {}",
-                    r.ph_len, r.new_dh_cbor, r.ph_dh_cbor)),
-                Outcome::Shorter(d) => run.fail(idx, "embeddable-shorter", format!(
-                    "sign_embeddable returned {d} bytes fewer than placeholder ({} bytes)", r.ph_len)),
+                Outcome::Longer(d) => run.fail(idx, &format!("embeddable-longer{suffix}"), format!(
+                    "signing returned {d} JUMBF bytes more than the placeholder ({} composed bytes); binding CBOR {} vs placeholder {}",
+                    r.ph_len, r.new_bind_cbor, r.ph_bind_cbor)),
+                Outcome::Shorter(d) => run.fail(idx, &format!("embeddable-shorter{suffix}"), format!(
+                    "signing returned {d} JUMBF bytes fewer than the placeholder ({} composed bytes)", r.ph_len)),
                 Outcome::OtherErr(e) => run.fail(idx, "embeddable-unexpected-error", e.clone()),
                 Outcome::TooLarge => run.count("outcome:err-toolarge"),
+                Outcome::TooSmall => run.count("outcome:err-toosmall"),
                 Outcome::Ok { .. } => run.count("outcome:ok-same-length"),
+            }
+            if r.readback.is_some() && STRUCTURE_CHANGED.with(|c| c.replace(false)) {
+                run.count(&format!("structure:box-list-changed-by-zero-padding:{}", case.fmt));
             }
             if let Some(rb) = &r.readback {
                 match rb {
-                    Ok(ValidationState::Valid) | Ok(ValidationState::Trusted) => run.count("readback:valid"),
-                    Ok(s) => run.fail(idx, "embeddable-not-valid", format!("patched asset reads back {s:?}")),
+                    Ok(ValidationState::Valid) | Ok(ValidationState::Trusted) => {
+                        run.count("readback:valid");
+                        run.count(&format!("readback:valid:{}", case.fmt));
+                    }
+                    Ok(s) => {
+                        // class: the DataHash flow keeps the plain key; BoxHash flows are keyed by format
+                        let class = if case.boxhash.is_some() {
+                            format!("embeddable-not-valid-boxhash-{}", case.fmt.rsplit('/').next().unwrap_or(case.fmt))
+                        } else {
+                            format!("embeddable-not-valid{suffix}")
+                        };
+                        run.fail(idx, &class, format!("patched asset reads back {s:?}"))
+                    }
                     Err(e) => run.fail(idx, "embeddable-read-error", e.clone()),
                 }
             }
@@ -487,15 +788,27 @@ fn pick_val(rng: &mut Rng, big: bool) -> u64 {
     }
 }
 
+const REAL_FMTS: [&str; 4] = ["image/jpeg", "image/png", "image/gif", "image/jxl"];
+/// every non-BMFF format whose handler composes manifests
+const ALL_FMTS: [&str; 7] = ["c2pa", "image/jpeg", "image/png", "image/gif", "image/jxl", "image/tiff", "application/pdf"];
+
 fn run(run: &mut Run, rng: &mut Rng) {
-    run.rule = "a case is non-trivial when placeholder() and sign_embeddable() both ran, i.e. the size contract was decided (distinct by format, pre-added DataHash, effective exclusion list, dynamic assertions, rehash)".into();
-    let jpeg = std::fs::read(vh::common::fixtures().join("no_manifest.jpg")).unwrap_or_default();
-    let png = std::fs::read(vh::common::fixtures().join("sample1.png")).unwrap_or_default();
-    run.obligations.insert("fixtures-available".into(), jpeg.len() > 70000 && png.len() > 70000);
-    if jpeg.is_empty() || png.is_empty() {
+    run.rule = "a case is non-trivial when the placeholder call and the signing call both ran, i.e. the size contract was decided (distinct by format, pre-added DataHash, effective exclusion list, dynamic assertions, rehash, BoxHash binding, JSON round trip, legacy API)".into();
+    let rd = |n: &str| std::fs::read(vh::common::fixtures().join(n)).unwrap_or_default();
+    let assets = Assets { jpeg: rd("no_manifest.jpg"), png: rd("sample1.png"), gif: rd("sample1.gif"), jxl: rd("sample1.jxl") };
+    run.obligations.insert(
+        "fixtures-available".into(),
+        assets.jpeg.len() > 70000 && assets.png.len() > 70000 && assets.gif.len() > 1000 && assets.jxl.len() > 100,
+    );
+    if assets.jpeg.is_empty() || assets.png.is_empty() || assets.gif.is_empty() || assets.jxl.is_empty() {
         return;
     }
-    let assets = Assets { jpeg, png };
+    // every format with composed-manifest support is either exercised or a BMFF format (BmffHash binding)
+    let composed: Vec<String> = Builder::supported_mime_types()
+        .into_iter()
+        .filter(|m| c2pa::verif_hooks::c07::compose_manifest(m, &[0u8; 16]).is_some())
+        .collect();
+    run.notes.push(format!("formats with composed-manifest support: {}", composed.len()));
     let thorough = run.thorough();
     let base = Case {
         fmt: "image/jpeg",
@@ -507,10 +820,13 @@ fn run(run: &mut Run, rng: &mut Rng) {
         das: vec![],
         reserve_extra: 0,
         title_len: 3,
+        boxhash: None,
+        lost: false,
+        legacy: false,
     };
 
-    // 1. documented workflow: one exclusion = the manifest (JPEG, PNG), each hash algorithm
-    for fmt in ["image/jpeg", "image/png"] {
+    // 1. documented workflow: one exclusion = the manifest, each real format, each hash algorithm
+    for fmt in REAL_FMTS {
         for alg in ["sha256", "sha384", "sha512"] {
             do_case(run, &Case { fmt, alg, ..base.clone() }, &assets, "documented");
         }
@@ -518,24 +834,25 @@ fn run(run: &mut Run, rng: &mut Rng) {
 
     // 2. real assets, 1..12 exclusions, offsets inside the asset (small and > 65535)
     let reps = if thorough { 60 } else { 6 };
-    for fmt in ["image/jpeg", "image/png"] {
+    for fmt in REAL_FMTS {
+        let small_asset = fmt == "image/gif" || fmt == "image/jxl";
         for k in 1..=12usize {
-            for rep in 0..reps {
+            for rep in 0..(if small_asset { reps / 3 } else { reps }) {
                 let far = rep % 2 == 1 || k % 2 == 0;
                 let mut list = vec![(0u64, 0u64)];
                 let mut pos = 0u64;
                 for _ in 1..k {
-                    let gap = if far { rng.range(3000, 7000) } else { rng.range(1, 20) };
+                    let gap = if far && !small_asset { rng.range(3000, 7000) } else { rng.range(1, 20) };
                     let len = match rng.below(3) {
                         0 => rng.range(1, 23),
                         1 => rng.range(24, 255),
-                        _ => rng.range(256, 2000),
+                        _ => rng.range(256, if small_asset { 400 } else { 2000 }),
                     };
                     pos += gap;
                     list.push((pos, len));
                     pos += len;
                 }
-                let das = if rep == 2 { vec![(100, 100)] } else { vec![] };
+                let das = if rep == 2 { vec![(100, 100, Kind::Cbor)] } else { vec![] };
                 do_case(
                     run,
                     &Case { fmt, excl: Some(list), das, reserve_extra: (rep * 977) % 3000, title_len: 3 + rep * 7, ..base.clone() },
@@ -546,9 +863,9 @@ fn run(run: &mut Run, rng: &mut Rng) {
         }
     }
 
-    // 3. F9 witness and neighbours: ten exclusions with values >= 24 (synthetic offsets, caller digest)
+    // 3. F9 witness and neighbours: ten exclusions with values >= 24 (synthetic offsets)
     for (s, l) in [(24u64, 1u64), (24, 24), (23, 23), (0, 2), (256, 256), (65536, 70000), (1 << 32, 1 << 33)] {
-        for k in [1usize, 5, 9, 10, 11, 12] {
+        for k in [1usize, 5, 6, 9, 10, 11, 12] {
             do_case(
                 run,
                 &Case { fmt: "c2pa", real: false, excl: Some(vec![(s, l); k]), ..base.clone() },
@@ -564,21 +881,22 @@ fn run(run: &mut Run, rng: &mut Rng) {
         let k = rng.below(13) as usize;
         let big = rng.chance(1, 2);
         let list: Vec<(u64, u64)> = (0..k).map(|_| (pick_val(rng, big), pick_val(rng, big))).collect();
-        let fmt = *rng.pick(&["c2pa", "image/jpeg", "image/png"]);
+        let fmt = *rng.pick(&ALL_FMTS);
         let alg = *rng.pick(&["sha256", "sha256", "sha384", "sha512"]);
         let excl = if rng.chance(1, 12) { None } else { Some(list) };
         let rehash = rng.chance(5, 6);
+        let kind = *rng.pick(&[Kind::Cbor, Kind::Cbor, Kind::Json, Kind::Binary]);
         let das = match rng.below(6) {
-            0 => vec![(rng.range(1, 300) as usize, rng.range(1, 300) as usize)],
+            0 => vec![(rng.range(1, 300) as usize, rng.range(1, 300) as usize, kind)],
             1 => {
                 let r = rng.range(20, 70000) as usize;
-                vec![(r, r)]
+                vec![(r, r, kind)]
             }
             _ => vec![],
         };
         do_case(
             run,
-            &Case { fmt, real: false, alg, pre: None, excl, rehash, das, reserve_extra: (i * 331) % 5000, title_len: 1 + i % 40 },
+            &Case { fmt, real: false, alg, pre: None, excl, rehash, das, reserve_extra: (i * 331) % 5000, title_len: 1 + i % 40, ..base.clone() },
             &assets,
             "synthetic-mixed",
         );
@@ -590,6 +908,8 @@ fn run(run: &mut Run, rng: &mut Rng) {
         let pk = rng.below(14) as usize;
         let pv = *rng.pick(&[0u64, 23, 24, 255, 65536, 1 << 32]);
         let pre = PreDh {
+            no_name: rng.chance(1, 8),
+            no_alg: rng.chance(1, 8),
             name_len: *rng.pick(&[14usize, 14, 1, 30]),
             hash_len: *rng.pick(&[32usize, 32, 0, 64]),
             pad: *rng.pick(&[0usize, 0, 10, 100]),
@@ -607,8 +927,8 @@ fn run(run: &mut Run, rng: &mut Rng) {
         );
     }
 
-    // 6. dynamic assertions around the CBOR head boundaries of reserve_size and content
-    let mut rs: Vec<usize> = vec![1, 2, 10, 22, 23, 24, 25, 26, 27, 100, 254, 255, 256, 257, 258, 259, 260, 1000, 65535, 65536, 65537, 65538, 65539, 65540, 65541, 66000];
+    // 6. dynamic assertions around the CBOR head boundaries of reserve_size and content, each content kind
+    let mut rs: Vec<usize> = vec![0, 1, 2, 10, 22, 23, 24, 25, 26, 27, 100, 254, 255, 256, 257, 258, 259, 260, 1000, 65535, 65536, 65537, 65538, 65539, 65540, 65541, 66000];
     if !thorough {
         rs.retain(|r| *r < 300 || *r > 65530);
     }
@@ -618,16 +938,66 @@ fn run(run: &mut Run, rng: &mut Rng) {
             if c < 1 {
                 continue;
             }
-            do_case(
-                run,
-                &Case { fmt: "c2pa", real: false, das: vec![(r, c as usize)], excl: Some(vec![(0, 2); 10]), ..base.clone() },
-                &assets,
-                "dynamic-assertion",
-            );
+            for kind in [Kind::Cbor, Kind::Json, Kind::Binary] {
+                if kind != Kind::Cbor && dc.abs() == 2 {
+                    continue;
+                }
+                do_case(
+                    run,
+                    &Case { fmt: "c2pa", real: false, das: vec![(r, c as usize, kind)], excl: Some(vec![(0, 2); 10]), ..base.clone() },
+                    &assets,
+                    "dynamic-assertion",
+                );
+            }
         }
     }
-    // real asset + dynamic assertion of exactly its reserve
+    // real asset + dynamic assertions (one of each kind)
+    for fmt in REAL_FMTS {
+        do_case(run, &Case { fmt, das: vec![(500, 500, Kind::Cbor), (64, 60, Kind::Json), (80, 90, Kind::Binary)], ..base.clone() }, &assets, "real-da");
+    }
+
+    // 7. caller-supplied BoxHash before placeholder(): empty, too small, ample (real assets: the boxes are hashed)
+    for fmt in REAL_FMTS {
+        for dummy in [0usize, 1, 3, 10, 40, 150, 400] {
+            do_case(run, &Case { fmt, boxhash: Some(dummy), excl: None, ..base.clone() }, &assets, "boxhash-presized");
+        }
+        do_case(run, &Case { fmt, boxhash: Some(400), excl: None, das: vec![(120, 100, Kind::Cbor)], ..base.clone() }, &assets, "boxhash-presized");
+    }
+
+    // 8. the Builder rebuilt from its JSON between placeholder() and sign_embeddable() ("Mode 2")
+    for fmt in REAL_FMTS {
+        do_case(run, &Case { fmt, lost: true, ..base.clone() }, &assets, "json-roundtrip");
+    }
+    for (s, l) in [(0u64, 2u64), (24, 1), (70000, 70000)] {
+        for k in [0usize, 1, 5, 10, 12] {
+            do_case(run, &Case { fmt: "c2pa", real: false, lost: true, excl: Some(vec![(s, l); k]), ..base.clone() }, &assets, "json-roundtrip");
+        }
+    }
+
+    // 9. legacy API: data_hashed_placeholder + sign_data_hashed_embeddable
     for fmt in ["image/jpeg", "image/png"] {
-        do_case(run, &Case { fmt, das: vec![(500, 500), (64, 60)], ..base.clone() }, &assets, "real-da");
+        for alg in ["sha256", "sha512"] {
+            do_case(run, &Case { fmt, alg, legacy: true, ..base.clone() }, &assets, "legacy");
+        }
+    }
+    let n = if thorough { 6000 } else { 400 };
+    for i in 0..n {
+        let k = rng.below(12) as usize;
+        let big = rng.chance(1, 3);
+        let list: Vec<(u64, u64)> = (0..k).map(|_| (pick_val(rng, big), pick_val(rng, big))).collect();
+        let alg = *rng.pick(&["sha256", "sha256", "sha384", "sha512"]);
+        let pre = if rng.chance(1, 4) {
+            let pk = rng.below(14) as usize;
+            let pv = *rng.pick(&[0u64, 24, 65536]);
+            Some(PreDh { no_name: false, no_alg: false, name_len: 14, hash_len: *rng.pick(&[32usize, 0, 64]), pad: *rng.pick(&[0usize, 10, 100]), exclusions: vec![(pv, pv); pk] })
+        } else {
+            None
+        };
+        do_case(
+            run,
+            &Case { fmt: *rng.pick(&ALL_FMTS), real: false, alg, pre, excl: Some(list), legacy: true, reserve_extra: (i * 131) % 2000, ..base.clone() },
+            &assets,
+            "legacy",
+        );
     }
 }
